@@ -50,7 +50,7 @@ def make(rng, k):
     else:
         ttl, refresh = 0xFFFFFF, None
     tm = SDV.TimingsSpec(initMin=0, initMax=0, reps=0, cyclic=0, coll=rng.choice([0, 5]), subTtl=ttl, refresh=refresh)
-    return Sc(rng, tm, [], W, nsteps=rng.choice([30, 60, 100]), adversarial=True)
+    return Sc(rng, tm, [], W, nsteps=rng.choice([30, 60, 100]), adversarial=True, peers=rng.choice([3, 5, 5]))
 
 
 def expected_entry(eg: C.Eventgroup, ttl):
